@@ -325,7 +325,7 @@ theorem okEq_field (O : Oracles) (opts : DeserOpts) : ∀ (f : FieldDecl) (d : P
       have hj2 := hj
       simp only [strictJson, Bool.and_eq_true] at hj2
       exact map_str_okEq O opts kf vf sz hex.1 kvs hj2.1 (fun kv hkv =>
-        okEq_field O { opts with keepUndefined := true } vf kv.2 hex.2 (strictJsonPairs_mem kvs hj2.2 kv hkv))
+        okEq_field O opts vf kv.2 hex.2 (strictJsonPairs_mem kvs hj2.2 kv hkv))
     | _ =>
       first
       | (simp [strictJson] at hj; done)
